@@ -76,12 +76,26 @@ impl Seek for FaultyFile {
     }
 }
 
-fn base_image(version: Version) -> (Vec<u8>, Vec<(String, Vec<u8>)>) {
+fn base_image(version: Version, wide: bool) -> (Vec<u8>, Vec<(String, Vec<u8>)>) {
     let mut comp = CompoundFile::create_with_version(version, SharedFile::new(Vec::new())).unwrap();
     let mut streams = Vec::new();
     comp.create_storage("/a").unwrap();
     comp.create_storage("/a/b").unwrap();
-    for (p, n, salt) in [("/big", 20000usize, 1u64), ("/a/small", 700, 2), ("/a/b/mid", 4096, 3), ("/tiny", 10, 4), ("/empty", 0, 5)] {
+    // `wide`: a pad first, so that the file needs a second FAT sector (V3: > 128 sectors) and the
+    // streams read afterwards live behind it
+    let list: Vec<(&str, usize, u64)> = if wide {
+        vec![("/a/small", 700, 2), ("/tiny", 10, 4), ("/pad", 130 * 512, 9), ("/alpha", 9 * 512, 6), ("/beta", 9 * 512, 7)]
+    } else {
+        vec![("/big", 20000usize, 1u64), ("/a/small", 700, 2), ("/a/b/mid", 4096, 3), ("/tiny", 10, 4), ("/empty", 0, 5)]
+    };
+    if wide {
+        // all directory entries first, so that the directory, the MiniFAT and the mini stream lie in
+        // front of the second FAT sector and only stream chains lie behind it
+        for (p, _, _) in &list {
+            comp.create_stream(p).unwrap();
+        }
+    }
+    for (p, n, salt) in list {
         let data = pattern(n, salt);
         comp.create_stream(p).unwrap().write_all(&data).unwrap();
         streams.push((p.to_string(), data));
@@ -273,15 +287,29 @@ fn successes(t: &[String]) -> Vec<String> {
 
 pub fn read_campaign(seed: u64, pairs: u64, ops_path: &str, impl_path: &str) {
     let mut rng = Rng::new(seed);
+    if let Ok(k) = std::env::var("VERIF_DEBUG_K") {
+        // replay of one fault position on the image with two FAT sectors: print the transcript
+        let (image, streams) = base_image(Version::V3, std::env::var("VERIF_DEBUG_WIDE").is_ok());
+        let ctl = Ctl::new(true, false);
+        ctl.fail_a.store(k.parse().unwrap(), Ordering::SeqCst);
+        let (t, bad) = read_workload(&image, &streams, ctl, None);
+        for l in &t {
+            println!("T {}", l.chars().take(160).collect::<String>());
+        }
+        for b in &bad {
+            println!("ORACLE {}", b);
+        }
+        return;
+    }
     let mut evaluations = 0u64;
     let mut ops_out = String::new();
     let mut impl_out = String::new();
-    for version in [Version::V3, Version::V4] {
-        let (image, streams) = base_image(version);
+    for (version, wide) in [(Version::V3, false), (Version::V4, false), (Version::V3, true)] {
+        let (image, streams) = base_image(version, wide);
         let ctl = Ctl::new(true, false);
         let (t0, bad0) = read_workload(&image, &streams, ctl.clone(), None);
         let n = ctl.calls.load(Ordering::SeqCst);
-        println!("STAT calls_v{} {}", if version == Version::V3 { 3 } else { 4 }, n);
+        println!("STAT calls_v{}{} {}", if version == Version::V3 { 3 } else { 4 }, if wide { "_two_fat_sectors" } else { "" }, n);
         for b in bad0 {
             println!("ORACLE fault-free run: {}", b);
         }
